@@ -8,7 +8,7 @@ use crate::report::*;
 use pdf::any::AnySync;
 use pdf::error::{PdfError, Result};
 use pdf::file::{Cache, File, FileOptions, NoCache, NoLog, SyncCache};
-use pdf::object::{ImageXObject, Object, PagesNode, PlainRef, Ref, Resolve};
+use pdf::object::{ImageXObject, MaybeRef, Object, PagesNode, PlainRef, Ref, Resolve};
 use pdf::primitive::Dictionary;
 use serde_json::{json, Value};
 use std::sync::Arc;
@@ -35,7 +35,9 @@ pub fn build() -> (Vec<u8>, Vec<u8>) {
     let o = d.obj(8, 0, b"<< /Type /Page /Parent 7 0 R /MediaBox [0 0 1 1] >>");
     e.push((8, XEntry::InUse { off: o, gen: 0 }));
     e.push((7, XEntry::Free { next: 0, gen: 1 }));
-    d.xref_table(&e, 9, "/Root 5 0 R", None, Split::Min);
+    let o = d.obj(9, 0, b"[2 0 R 7 0 R]");
+    e.push((9, XEntry::InUse { off: o, gen: 0 }));
+    d.xref_table(&e, 10, "/Root 5 0 R", None, Split::Min);
     (d.buf, z)
 }
 
@@ -62,6 +64,8 @@ where
     match step["call"].as_str().unwrap() {
         "get" => match step["typ"].as_str().unwrap() {
             "P" => ans(r.get::<PagesNode>(Ref::new(pr))),
+            "VM" => ans(r.get::<Vec<MaybeRef<Dictionary>>>(Ref::new(pr))),
+            "VR" => ans(r.get::<Vec<Ref<Dictionary>>>(Ref::new(pr))),
             _ => ans(r.get::<Dictionary>(Ref::new(pr))),
         },
         "resolve" => ans(r.resolve(pr)),
